@@ -31,6 +31,11 @@ type c19Case struct {
 	Announce     []int `json:"announced_in_message,omitempty"`
 	AnnounceLate bool  `json:"each_announcement_just_before_its_uploads,omitempty"`
 	// Again: after the session a second connection of the same terminal repeats it (the files then exist already)
+	// the terminal's own identity: phone digits (default 13800138000) in the 2013 or 2019 header layout, and the phone
+	// of the overlapping other terminal (2013 layout; default 13900139000)
+	Phone        string  `json:"phone,omitempty"`
+	V2019        bool    `json:"v2019,omitempty"`
+	OtherPhone   string  `json:"other_phone,omitempty"`
 	Again        bool    `json:"session_repeated_on_a_new_connection,omitempty"`
 	AgainAlarmID kit.Hex `json:"alarm_id_of_the_repeat,omitempty"`
 }
@@ -153,6 +158,24 @@ func genC19(t *rapid.T) c19Case {
 		}
 		c.AnnounceLate = rapid.Bool().Draw(t, "late")
 	}
+	switch rapid.IntRange(0, 7).Draw(t, "phone_kind") {
+	case 0: // 20 decimal digits that do not fit into 64 bits
+		c.V2019, c.Phone = true, rapid.StringMatching("[2-9][0-9]{19}").Draw(t, "phone20")
+	case 1: // a 2019 phone whose bytes are a 2013 phone followed by zero bytes; the other terminal is that 2013 phone
+		c.V2019, c.OtherPhone = true, rapid.StringMatching("1[3-9][0-9]{10}").Draw(t, "phone12")
+		c.Phone = c.OtherPhone + "00000000"
+		c.Overlap = true
+	case 2: // the other terminal's 2013 phone is the tail of this terminal's 2019 phone
+		c.V2019, c.Phone = true, rapid.StringMatching("[1-9][0-9]{19}").Draw(t, "phone20b")
+		c.OtherPhone = c.Phone[8:]
+		if c.OtherPhone[0] == '0' {
+			c.OtherPhone = "1" + c.OtherPhone[1:]
+			c.Phone = c.Phone[:8] + c.OtherPhone
+		}
+		c.Overlap = true
+	case 3:
+		c.V2019 = true
+	}
 	if rapid.IntRange(0, 3).Draw(t, "again") == 0 {
 		c.Again = true
 		c.AgainAlarmID = hostileID("alarm2", 32)
@@ -177,7 +200,11 @@ func checkC19(c c19Case, _ *kit.Collector) kit.Result {
 	if tid == nil {
 		tid = kit.Hex("T1")
 	}
-	s := upScript{Dialect: c.Dialect, TerminalID: tid, AlarmID: alarm}
+	s := upScript{Dialect: c.Dialect, TerminalID: tid, AlarmID: alarm, Phone: c.Phone, V2019: c.V2019}
+	otherPhone := c.OtherPhone
+	if otherPhone == "" {
+		otherPhone = c19OtherPhone
+	}
 	for i, n := range c.Names {
 		s.Files = append(s.Files, upFile{Name: n, Size: 10 + i, Seed: byte(i + 1)})
 	}
@@ -237,10 +264,10 @@ func checkC19(c c19Case, _ *kit.Collector) kit.Result {
 			stream = append(stream, 0x7e, 0x01, 0x02, 0x7e)
 			cuts = append(cuts, len(stream))
 		case "unknown_command":
-			stream = append(stream, ref.Spec{ID: 0x0002, PhoneBCD: phoneFor(false), Serial: 999}.Build()...)
+			stream = append(stream, ref.Spec{ID: 0x0002, Version2019: s.V2019, VersionByte: 1, PhoneBCD: s.phoneBCD(), Serial: 999}.Build()...)
 			cuts = append(cuts, len(stream))
 		case "bad_checksum":
-			f := ref.Spec{ID: 0x1211, PhoneBCD: phoneFor(false), Serial: 998, Body: ref.Body1211([]byte("zz"), 0, 1)}.Build()
+			f := ref.Spec{ID: 0x1211, Version2019: s.V2019, VersionByte: 1, PhoneBCD: s.phoneBCD(), Serial: 998, Body: ref.Body1211([]byte("zz"), 0, 1)}.Build()
 			f[len(f)-2] ^= 0x01
 			stream = append(stream, f...)
 			cuts = append(cuts, len(stream))
@@ -250,7 +277,7 @@ func checkC19(c c19Case, _ *kit.Collector) kit.Result {
 	stream, cuts, nControl := build(s, c.End)
 	if c.Overlap {
 		// after this terminal's announcement another terminal (other phone) connects, uploads one file and leaves
-		other := upScript{Dialect: c.Dialect, Phone: c19OtherPhone, TerminalID: kit.Hex("T2"), AlarmID: kit.Hex("A2"),
+		other := upScript{Dialect: c.Dialect, Phone: otherPhone, TerminalID: kit.Hex("T2"), AlarmID: kit.Hex("A2"),
 			Files: []upFile{{Name: kit.Hex("other_b0.bin"), Size: 9, Seed: 77}},
 			Items: []upItem{{Kind: "1210"}, {Kind: "1211"}, {Kind: "chunk", Off: 0, Len: 9}, {Kind: "1212"}}}
 		streamHook = func(i int) {
@@ -304,6 +331,12 @@ func checkC19(c c19Case, _ *kit.Collector) kit.Result {
 	}
 	// walk the sandbox: everything new or modified must lie under work/<phone>/ (file.log excepted)
 	phone := c19Phone
+	if c.Phone != "" {
+		phone = ref.StripZeros(c.Phone)
+	}
+	if c.Phone != "" || c.V2019 {
+		res.Labels = append(res.Labels, "phone_other_than_the_default")
+	}
 	allowedDir := filepath.Join(sandboxRoot, "work", phone)
 	var bad []string
 	created := 0
@@ -340,7 +373,7 @@ func checkC19(c c19Case, _ *kit.Collector) kit.Result {
 			return nil
 		}
 		if c.Overlap {
-			otherDir := filepath.Join(sandboxRoot, "work", c19OtherPhone)
+			otherDir := filepath.Join(sandboxRoot, "work", ref.StripZeros(otherPhone))
 			if p == otherDir {
 				return nil
 			}
